@@ -21,6 +21,7 @@ pub fn check(tier: Tier) -> Check {
         // Receive Maximum 1: locally refused publishes are among the pending operations
         parts.push(Part::new("C14/drop", json!({"depth": d, "r": 1}), k, tier.pick(40, 600)));
     }
+    parts.push(Part::new("C14/drop", json!({"depth": tier.pick(4, 6), "r": 1, "flavour": 1}), 1, tier.pick(40, 600)));
     Check {
         also_rel: false,
         property: "C14",
@@ -40,8 +41,11 @@ pub fn scenario(name: &str, params: &Value) -> Scenario {
         let mut sys = Sys::new("C14", &name, chz);
         sys.params = params.clone();
         sys.m.check_client_acks = false;
-        sys.bring_up(if r == 0 { vec![] } else { receive_max(r) });
+        sys.bring_up_fl(if r == 0 { vec![] } else { receive_max(r) }, params["flavour"].as_u64().unwrap_or(0));
         let mut specs = std_ops();
+        // a user DISCONNECT that may still be queued (held context) when the context goes away
+        specs.push(OpSpec::Disconnect(DisconnectSpec::default()));
+        specs.push(OpSpec::Publish(PublishSpec::simple(0, "t/z", b"zero")));
         if r != 0 {
             specs.push(OpSpec::Publish(PublishSpec::simple(1, "t/c", b"three")));
         }
